@@ -17,6 +17,7 @@ import (
 	"sort"
 	"strings"
 	"sync"
+	"time"
 
 	"github.com/dolthub/dolt/go/libraries/doltcore/dbfactory"
 	"github.com/dolthub/dolt/go/libraries/doltcore/doltdb"
@@ -107,7 +108,36 @@ func (f *failCS) WriteTableFile(ctx context.Context, id string, split uint64, n 
 	return c, err
 }
 
+// rendezvous of racing pushers: everybody waits until |k| callers have arrived (or a timeout)
+var (
+	rvMu      sync.Mutex
+	rvArrived int
+	rvCh      = make(chan struct{})
+)
+
+func rendezvous(k int) {
+	rvMu.Lock()
+	rvArrived++
+	ch := rvCh
+	if rvArrived >= k {
+		rvArrived = 0
+		rvCh = make(chan struct{})
+		close(ch)
+	}
+	rvMu.Unlock()
+	select {
+	case <-ch:
+	case <-time.After(4 * time.Second):
+	}
+}
+
 func (f *failCS) AddTableFilesToManifest(ctx context.Context, m map[string]int, ga chunks.InsertAddrsCurry) error {
+	plan.mu.Lock()
+	isBarrier, k := plan.point == "barrier", plan.k
+	plan.mu.Unlock()
+	if isBarrier {
+		rendezvous(k)
+	}
 	if plan.at("add-before") {
 		return errInjected
 	}
